@@ -862,6 +862,8 @@ Print Assumptions Blocks_total_document_accepts_add_child_kinds.
    Some((container, false, _)) never goes on, its container is a paragraph.  parse_desc_list_details /
    handle_description_list and the other handlers are bounded under the tree invariant W.  Three walks of the same
    computation are combined (tree walk `safe`, cursor walk `sg (but cur_sites)`, fuel walk `sg (every site) false`).
+   Not pinned (the check compiles this file on every run): BlocksTotal5Loop.process_line_no_fuel, open_new_blocks_no_fuel,
+   BlocksTotal5FuelDesc.nf_parse_desc_list_details / nf_handle_description_list (under the invariant J of the handlers).
    RESULT, for EVERY input byte string (valid UTF-8 or not) and EVERY option set: parse_blocks never answers OutOfFuel
    (Blocks_total_partial_no_fuel); so `parse_blocks o x` is Ok or a Panic at a site outside the 76 excluded ones. *)
 From V Require Proofs.BlocksTotal5Fuel Proofs.BlocksTotal5FuelDesc Proofs.BlocksTotal5Adv Proofs.BlocksTotal5Loop.
@@ -870,16 +872,7 @@ Theorem Blocks_total_partial_no_fuel : forall o x, parse_blocks o x <> OutOfFuel
 Proof. exact BlocksTotal5Loop.parse_blocks_no_fuel. Qed.
 Print Assumptions Blocks_total_partial_no_fuel.
 
-Theorem Blocks_total_partial_process_line_no_fuel : forall o st line0,
-  lf_terminated (norm_line line0) -> BlocksTotal2Walk.LI o st -> process_line o st line0 <> OutOfFuel.
-Proof. exact BlocksTotal5Loop.process_line_no_fuel. Qed.
-Print Assumptions Blocks_total_partial_process_line_no_fuel.
 
-Theorem Blocks_total_partial_open_new_blocks_no_fuel : forall o line st c am,
-  lf_terminated line -> BlocksTotal2Tree.W o st -> BlocksTotal2Tree.has st c -> BlocksTotal2Tree.has st (ps_current st) ->
-  BlocksTotal4Walk.C1 line st -> open_new_blocks o st c line am <> OutOfFuel.
-Proof. exact BlocksTotal5Loop.open_new_blocks_no_fuel. Qed.
-Print Assumptions Blocks_total_partial_open_new_blocks_no_fuel.
 
 (* one iteration of open_new_blocks from a state with the handlers' invariant J and the cursor inside the line: it
    does not run out of fuel, and when it goes on the offset has moved forward, or has not moved back and the container
@@ -898,16 +891,6 @@ Proof.
 Qed.
 Print Assumptions Blocks_total_partial_open_new_blocks_step_advances.
 
-(* the description-list handler under the invariant J of the handlers *)
-Theorem Blocks_total_partial_fuel_description_list : forall o lmc cur0 st c line ind matched,
-  BlocksTotal2Walk.J o lmc cur0 st c ->
-  parse_desc_list_details o st c matched <> OutOfFuel /\ handle_description_list o st c line ind <> OutOfFuel.
-Proof.
-  intros o lmc cur0 st c line ind matched Jc. split; apply BlocksTotal4Fuel.nf_ne.
-  - eapply BlocksTotal5FuelDesc.nf_parse_desc_list_details; exact Jc.
-  - eapply BlocksTotal5FuelDesc.nf_handle_description_list; exact Jc.
-Qed.
-Print Assumptions Blocks_total_partial_fuel_description_list.
 
 (* Step 2 (Proofs/BlocksTotal5Only.v): the list of what REMAINS, as a theorem.  An `only` walk (al = only (tree_sites ++
    cur_sites ++ rem_sites)) of the whole parse, without any invariant: every Panic literal of the model is in that list
@@ -961,10 +944,27 @@ Theorem Blocks_total_remaining_sites_list :
 Proof. reflexivity. Qed.
 Print Assumptions Blocks_total_remaining_sites_list.
 
-Theorem Blocks_total_partial_panic_only : forall o x s,
-  parse_blocks o x = Panic s -> In s BlocksTotal5Only.rem_sites.
-Proof. exact BlocksTotal5Only.parse_blocks_panic_rem. Qed.
-Print Assumptions Blocks_total_partial_panic_only.
+(* the sites this round adds to the 76 of Blocks_total_partial_sites_all *)
+Theorem Blocks_total_new_sites_list :
+  BlocksTotal5Only.new_sites =
+  [ "strings.rs:ltrim:line.len() - spaces";
+    "strings.rs:rtrim:line.len() - spaces";
+    "strings.rs:unescape:prev + 1 - found";
+    "strings.rs:unescape:window slice";
+    "strings.rs:unescape:v.len() - found";
+    "strings.rs:shift_buf_left:assert n <= buf.len()";
+    "entity.rs:unescape:hex digit - 9";
+    "inlines.rs:manual_scan_link_url:input[1..i - 1]";
+    "strings.rs:clean_title:title[1..title_len - 1]";
+    "strings.rs:line_at:bytes[end..]" ].
+Proof. reflexivity. Qed.
+Print Assumptions Blocks_total_new_sites_list.
+
+(* 11 tree + 65 cursor + 10 sites: unreachable for every input byte string and every option set *)
+Theorem Blocks_total_partial_sites_all5 : forall o x s,
+  In s (BlocksTotal2Safe.tree_sites ++ BlocksTotal4Frame.cur_sites ++ BlocksTotal5Only.new_sites) -> parse_blocks o x <> Panic s.
+Proof. exact BlocksTotal5Only.parse_blocks_no_panic_all5. Qed.
+Print Assumptions Blocks_total_partial_sites_all5.
 
 Theorem Blocks_total_partial_ok_or_remaining : forall o x,
   (exists r, parse_blocks o x = Ok r) \/ (exists s, parse_blocks o x = Panic s /\ In s BlocksTotal5Only.rem_sites).
